@@ -61,8 +61,13 @@ package header
 //@ ensures h.Action == 4 ==> forall k string :: k != canon(h.Name) && k != h.Name ==> (k in hh) == old(k in hh) && hh[k] == old(hh[k])
 
 // Rule lists are applied in order (L16.5): after the loop every rule has been applied once, left to right.
+// Which rule list was (last) applied to a message (ghost), for the dispatch lemma L16.4.
+//@ ghost var rulesOnReq(*http.Request) Headers
+//@ ghost var rulesOnRes(*http.Response) Headers
+
 //@ func (Headers).ModifyRequest
 //@ property C16
+//@ ghostset rulesOnReq(req) := s
 //@ requires req != nil && req.Header != nil
 //@ requires forall i int :: 0 <= i && i < len(s) ==> (s[i].Action == 3 ==> s[i].Value != nil)
 //@ modifies *
@@ -70,7 +75,28 @@ package header
 
 //@ func (Headers).ModifyResponse
 //@ property C16
+//@ ghostset rulesOnRes(res) := s
 //@ requires res != nil && res.Header != nil
 //@ requires forall i int :: 0 <= i && i < len(s) ==> (s[i].Action == 3 ==> s[i].Value != nil)
 //@ modifies *
 //@ ensures result == nil
+
+// ---- rule syntax (L16.2) ----
+
+//@ define tokch(c int) bool = (48 <= c && c <= 57) || (65 <= c && c <= 90) || (97 <= c && c <= 122) || c == 45
+//@ pred isToken(s string) = len(s) > 0 && forall i int :: 0 <= i && i < len(s) ==> tokch(s[i])
+//@ pred noCRLF(s string) = forall i int :: 0 <= i && i < len(s) ==> s[i] != 13 && s[i] != 10
+
+// The languages of the two regular expression literals of this package
+// (trusted; audited against the real regexp package by the spec audit).
+//@ globalinv headerNameRegex != nil && headerLineRegex != nil && reNGroups(headerLineRegex) == 2
+//@ globalinv forall s string :: reMatch(headerNameRegex, s) ==> isToken(s)
+//@ globalinv forall s string :: reMatch(headerLineRegex, s) ==> isToken(reGroup(headerLineRegex, s, 1)) && noCRLF(reGroup(headerLineRegex, s, 2))
+
+// Every rule the parser accepts is a legal header field: token name, value without CR/LF.
+//@ func ParseHeader
+//@ property C16
+//@ ensures err == nil ==> isToken(result0.Name)
+//@ ensures err == nil && result0.Action == 3 ==> result0.Value != nil && noCRLF(*result0.Value)
+//@ ensures err == nil && result0.Action != 3 ==> result0.Value == nil
+//@ ensures err == nil ==> 0 <= result0.Action && result0.Action <= 4
